@@ -178,11 +178,47 @@ def evaluate(engine, values):
     return st[0]
 
 
-def check_graph(forest, id_scheme, allow_fallback):
-    """Returns (status, violations, n_basis)."""
-    comps, conns, info = build(forest, id_scheme)
+def _warm_up(previous, id_scheme):
+    """A graph object that has already served another topology: loaded with ``previous`` and used to generate
+    every formula once (so that anything it memoises is filled).  Returns None if that topology is invalid."""
+    comps, conns, info = build(previous, id_scheme)
     try:
         g = _MicrogridComponentGraph(set(comps), set(conns))
+    except InvalidGraphError:
+        return None
+    saved = connection_manager._CONNECTION_MANAGER
+    connection_manager._CONNECTION_MANAGER = _CM(g)
+    try:
+        reg = ChannelRegistry(name="warm-up")
+        snd = Broadcast(name="warm-up-subs").new_sender()
+        bats = {b for b, k in info.items() if k == "bat"}
+        evs = {e for e, k in info.items() if k == "E"}
+        for mk in (lambda: GridPowerFormula("w", reg, snd, FormulaGeneratorConfig()).generate(),
+                   lambda: ConsumerPowerFormula("w", reg, snd, FormulaGeneratorConfig()).generate(),
+                   lambda: ProducerPowerFormula("w", reg, snd, FormulaGeneratorConfig()).generate(),
+                   lambda: BatteryPowerFormula("w", reg, snd, FormulaGeneratorConfig(component_ids=bats)).generate(),
+                   lambda: PVPowerFormula("w", reg, snd, FormulaGeneratorConfig()).generate(),
+                   lambda: EVChargerPowerFormula("w", reg, snd, FormulaGeneratorConfig(component_ids=evs)).generate(),
+                   lambda: CHPPowerFormula("w", reg, snd, FormulaGeneratorConfig()).generate()):
+            try:
+                mk()
+            except Exception:  # noqa: BLE001 - judged when that topology is checked itself
+                pass
+    finally:
+        connection_manager._CONNECTION_MANAGER = saved
+    return g
+
+
+def check_graph(forest, id_scheme, allow_fallback, previous=None):
+    """Returns (status, violations, n_basis).  With ``previous`` the graph object is not fresh: it was loaded with
+    that other topology, used, and then refreshed to this one (refresh_from)."""
+    comps, conns, info = build(forest, id_scheme)
+    try:
+        g = _warm_up(previous, id_scheme) if previous is not None else None
+        if g is not None:
+            g.refresh_from(set(comps), set(conns))
+        else:
+            g = _MicrogridComponentGraph(set(comps), set(conns))
     except InvalidGraphError:
         return "invalid", [], 0
     saved = connection_manager._CONNECTION_MANAGER
@@ -331,11 +367,14 @@ def shape_classes(forest):
 def shard(args) -> Acc:
     tier, n, lo, hi = args
     acc = Acc()
-    forests = [f for f in _forest(n, None) if chp_ok(f)][lo:hi]
-    for forest in forests:
-        for id_scheme in (0, 1):
-            for allow_fallback in (False, True):
-                status, viol, nb = check_graph(forest, id_scheme, allow_fallback)
+    allf = [f for f in _forest(n, None) if chp_ok(f)]
+    forests = allf[lo:hi]
+    for k, forest in enumerate(forests):
+        # third mode: the graph object previously held the preceding topology of the enumeration (same ids, other roles)
+        previous = allf[(lo + k - 1) % len(allf)]
+        for id_scheme, allow_fallback, prev in ((0, False, None), (0, True, None), (1, False, None), (1, True, None), (0, False, previous)):
+            if True:
+                status, viol, nb = check_graph(forest, id_scheme, allow_fallback, prev)
                 acc.evaluations += 1
                 if status == "invalid":
                     acc.counters["rejected_by_graph_validation"] += 1
@@ -348,12 +387,13 @@ def shard(args) -> Acc:
                 if depth_meters >= 2 or len(forest) >= 2:
                     acc.nontrivial += 1
                 acc.outcome(f"{shape_classes(forest)[0]} top={len(forest)}")
-                if id_scheme == 0 and not allow_fallback:
+                if id_scheme == 0 and not allow_fallback and prev is None:
                     acc.state(repr(forest))
                 if acc.traces % 900 == 1:
                     acc.sample({"forest": repr(forest), "id_scheme": id_scheme, "allow_fallback": allow_fallback, "vectors": nb})
                 for clause, detail in viol:
-                    acc.violation(Violation(clause, {"forest": repr(forest), "id_scheme": id_scheme, "allow_fallback": allow_fallback},
+                    acc.violation(Violation(clause, {"forest": repr(forest), "id_scheme": id_scheme, "allow_fallback": allow_fallback,
+                                                     "refreshed_from": None if prev is None else repr(prev)},
                                             detail, shape_classes(forest)))
     return acc
 
@@ -374,7 +414,8 @@ def run(tier: str, seed: int, workers: int):
     meta = {
         "rule": "every forest of subtrees below the grid connection with up to 5 (quick) / 7 (thorough) nodes from {meter with any children, "
         "battery inverter with 1 or 2 batteries, two battery inverters sharing one battery, PV inverter, EV charger, CHP below a CHP-only meter}, unlabelled-isomorphic duplicates "
-        "removed, each with two component-id assignments and with allow_fallback off and on; graphs the real validation rejects are "
+        "removed, each with two component-id assignments and with allow_fallback off and on, and once on a graph object that held the "
+        "preceding topology of the enumeration, generated all formulas for it and was then refreshed (refresh_from); graphs the real validation rejects are "
         "counted and skipped; per graph one unit of power at each device and one unit of unmetered load at each meter not dedicated "
         "to one device type, plus one combined vector; non-trivial = at least two meters or several grid successors",
         "assumptions": [
@@ -392,5 +433,7 @@ def run(tier: str, seed: int, workers: int):
 
 def replay(case: dict):
     forest = eval(case["forest"], {"__builtins__": {}})  # noqa: S307 - a tuple literal written by this check
-    _, viol, _ = check_graph(forest, case["id_scheme"], case["allow_fallback"])
+    prev = case.get("refreshed_from")
+    prev = None if prev is None else eval(prev, {"__builtins__": {}})  # noqa: S307
+    _, viol, _ = check_graph(forest, case["id_scheme"], case["allow_fallback"], prev)
     return viol
